@@ -489,7 +489,14 @@ class Range(object):
         assert other != (None, None)
 
         lower, upper = other
-        result = self._item_contains(some, lower) or self._item_contains(some, upper)
+        some_lower, some_upper = some
+        # NOTE: Check both directions because an item can enclose another one, for example "5...6" and "1...10".
+        result = (
+            self._item_contains(some, lower)
+            or self._item_contains(some, upper)
+            or self._item_contains(other, some_lower)
+            or self._item_contains(other, some_upper)
+        )
         return result
 
     def _item_contains(self, item, value):
